@@ -210,3 +210,43 @@ func vC10Run(alphabet []int, L int, coarse bool) {
 		}
 	}
 }
+
+// C10 at the place the node actually retrieves from: Memberlist.getBroadcasts combines the transmit-limited queue
+// with the delegate's user broadcasts (each framed with one type byte). Whatever is queued and whatever the
+// delegate has - it honours the (overhead, limit) it is offered to the byte - the combined result plus the stated
+// per-message overhead fits the limit, membership broadcasts come first, and user payloads are intact.
+func H_C10_CombinedRetrieval() {
+	conf := vBaseConfig()
+	f := vNewML(conf)
+	m := f.m
+	f.del = &vDelegateRec{}
+	conf.Delegate = f.del
+	f.vAddSelf(3, nil)
+	f.vAddConcreteAlive(vPeerA, 2)
+	nq := vPick(3)
+	for i := 0; i < nq; i++ {
+		vOpt("enclen", []int{3, 6}[i%2])
+		m.encodeBroadcastNotify([]string{"x", "y"}[i], suspectMsg, &suspect{Node: "x"}, nil)
+	}
+	f.del.bcast = [][]byte{vBytes(1), vBytes(2), vBytes(0), vBytes(1), vBytes(0), vBytes(2)}
+	overhead := vRange(0, 4)
+	limit := vRange(0, 48)
+	msgs := m.getBroadcasts(overhead, limit)
+	total := 0
+	users := 0
+	for i, b := range msgs {
+		total += overhead + len(b)
+		if i >= nq || len(b) == 0 || b[0] != byte(suspectMsg) {
+			vAssert(len(b) >= 1 && b[0] == byte(userMsg), "c10.combined.user-message-framed")
+			if len(b) >= 1 && users < len(f.del.bcast) {
+				vAssert(vEqBytes(b[1:], f.del.bcast[users]), "c10.combined.user-payload-intact")
+			}
+			users++
+		}
+	}
+	vAssert(total <= limit, "c10.combined.fits-the-limit")
+	vAssert(users == f.del.bcastReturned, "c10.combined.every-user-message-passed-on")
+	vCover("c10.combined")
+}
+
+func init() { vRegister("H_C10_CombinedRetrieval", H_C10_CombinedRetrieval) }
